@@ -509,12 +509,135 @@ pub fn check(case: &Case, obs: &mut Obs) -> CheckResult {
     Ok(())
 }
 
+// ------------------------------------------------------------- short-send tier
+
+/// Kernel short sends: the uplink socket is one end of an AF_UNIX datagram pair
+/// with a minimal send buffer, drained by a helper thread, so `sendmmsg` accepts
+/// fewer datagrams than offered (or none) in the middle of a batch.
+#[derive(Debug, Clone, Hash, Serialize, Deserialize)]
+pub struct ShortCase {
+    pub regime: u8,
+    /// (datagrams in the burst, length selector, flush tick after the burst)
+    pub bursts: Vec<(u8, u16, bool)>,
+}
+
+fn short_strategy() -> impl Strategy<Value = ShortCase> {
+    (0u8..3, vec((prop_oneof![1u8..8, 8u8..40, 40u8..100], prop_oneof![Just(9u16), Just(11), 100u16..1500], prop::bool::weighted(0.8)), 1..8)).prop_map(|(regime, bursts)| ShortCase { regime, bursts })
+}
+
+pub fn check_short(case: &ShortCase, obs: &mut Obs) -> CheckResult {
+    use std::sync::atomic::{AtomicBool, Ordering};
+    use std::sync::{Arc, Mutex};
+    let mut sh = Shell::new(&[0], ConfigSnapshot::default());
+    sh.establish_all();
+    let (a, b) = match socket2::Socket::pair(socket2::Domain::UNIX, socket2::Type::DGRAM, None) {
+        Ok(p) => p,
+        Err(_) => return Ok(()),
+    };
+    let _ = a.set_nonblocking(true);
+    let _ = a.set_send_buffer_size(1);
+    let _ = b.set_recv_buffer_size(1);
+    let _ = b.set_read_timeout(Some(std::time::Duration::from_millis(20)));
+    let cid = sh.st.conns[0].conn_id;
+    {
+        let _g = sh.rt.enter();
+        let sock = match srtla_send::net::BatchUdpSocket::new(a) {
+            Ok(s) => s,
+            Err(_) => return Ok(()),
+        };
+        sh.st.conn_io.get_mut(&cid).unwrap().socket = Arc::new(sock);
+    }
+    sh.st.conns[0].batch_sender.set_regime(match case.regime {
+        0 => BatchRegime::LowActivity,
+        1 => BatchRegime::Normal,
+        _ => BatchRegime::HighLoad,
+    });
+    let received: Arc<Mutex<Vec<Vec<u8>>>> = Arc::new(Mutex::new(Vec::new()));
+    let stop = Arc::new(AtomicBool::new(false));
+    let drainer = {
+        let received = received.clone();
+        let stop = stop.clone();
+        let b2 = b.try_clone().expect("clone");
+        std::thread::spawn(move || {
+            let mut buf = [std::mem::MaybeUninit::<u8>::uninit(); 2048];
+            while !stop.load(Ordering::Acquire) {
+                if let Ok(n) = b2.recv(&mut buf) {
+                    let v: Vec<u8> = buf[..n].iter().map(|x| unsafe { x.assume_init() }).collect();
+                    received.lock().unwrap().push(v);
+                }
+            }
+        })
+    };
+    let mut sent: Vec<Vec<u8>> = Vec::new();
+    let mut counter = 0u32;
+    let mut torn = false;
+    for (n, lsel, tick) in &case.bursts {
+        for _ in 0..*n {
+            counter += 1;
+            let len = (*lsel as usize).clamp(9, 1500);
+            let pkt = client_datagram(0, len, counter, counter);
+            sh.client_pkt(&pkt);
+            sent.push(pkt);
+            // keep the link live and its in-flight bounded
+            if counter % 16 == 0 {
+                let mut p = vec![0u8; 44];
+                p[0] = 0x80;
+                p[1] = 0x02;
+                p[16..20].copy_from_slice(&counter.to_be_bytes());
+                sh.uplink_pkt(0, &p);
+            }
+            if !sh.st.conns[0].connected {
+                torn = true;
+            }
+        }
+        if *tick {
+            sh.advance(15);
+            sh.flush_tick();
+        }
+        sh.advance(3);
+        let _ = sh.drain_client();
+    }
+    sh.advance(15);
+    sh.flush_tick();
+    if !sh.st.conns[0].connected {
+        torn = true;
+    }
+    stop.store(true, std::sync::atomic::Ordering::Release);
+    let _ = drainer.join();
+    // whatever is still in the kernel queue
+    let _ = b.set_nonblocking(true);
+    let mut buf = [std::mem::MaybeUninit::<u8>::uninit(); 2048];
+    let mut got = received.lock().unwrap().clone();
+    while let Ok(n) = b.recv(&mut buf) {
+        got.push(buf[..n].iter().map(|x| unsafe { x.assume_init() }).collect());
+    }
+    if torn {
+        obs.class("link-torn-down-by-send-error");
+        // what arrived must still be a prefix-ordered subsequence of what was accepted
+        let mut it = sent.iter();
+        for g in &got {
+            vensure!(it.any(|s| s == g), "datagram-invented-or-duplicated", "short-send tier: received a datagram out of order / not accepted");
+        }
+        return Ok(());
+    }
+    obs.count("datagrams", sent.len() as u64);
+    if got.len() < sent.len() {
+        return crate::rt::viol("datagram-dropped-on-short-send", format!("short-send tier: {} of {} accepted datagrams reached the peer of a healthy uplink (regime {}, bursts {:?})", got.len(), sent.len(), case.regime, case.bursts));
+    }
+    vensure!(got == sent, if got.len() > sent.len() { "datagram-invented-or-duplicated" } else { "datagram-reordered" }, "short-send tier: received sequence differs from the accepted sequence ({} vs {})", got.len(), sent.len());
+    obs.nontrivial = case.bursts.iter().any(|b| b.0 >= 12);
+    if obs.nontrivial {
+        obs.sample = Some(json!({"regime": case.regime, "bursts": case.bursts, "datagrams": sent.len()}));
+    }
+    Ok(())
+}
+
 pub fn run(ctx: &Ctx) -> &'static str {
     ctx.assume("client datagrams are SRT data or control packets of 1..1500 bytes (never SRTLA type bytes 0x90/0x91/0x92); a 0-byte datagram is out of the stated domain");
     ctx.assume("loopback delivery is synchronous: the harness receiver (4 MiB buffer) is drained after every step, so it cannot drop by itself");
     ctx.assume("a link 'failed' = a send failure was injected on its current socket (EPIPE via shutdown(SHUT_WR)) or it was torn down in this step; 're-registered' = REG3 delivered / housekeeping reconnect in this step");
     for (file, body) in ctx.replay_files() {
-        if !ctx.replay_case::<Case, _>("event-loop", &file, &body, check) {
+        if !(ctx.replay_case::<Case, _>("event-loop", &file, &body, check) || ctx.replay_case::<ShortCase, _>("short-send", &file, &body, check_short)) {
             eprintln!("replay {}: unknown part", file.display());
         }
     }
@@ -528,6 +651,13 @@ pub fn run(ctx: &Ctx) -> &'static str {
         ctx.tier.pick(6_000, 120_000),
         || strategy(mo),
         |_| check,
+    );
+    ctx.explore(
+        "short-send",
+        "one uplink whose socket is an AF_UNIX datagram pair with a minimal send buffer drained by a helper thread, so sendmmsg accepts fewer datagrams than offered in the middle of a batch (all regimes, bursts of 1..99 datagrams): every accepted datagram must reach the peer exactly once, in order; non-trivial = a burst of >= 12 datagrams",
+        ctx.tier.pick(300, 6_000),
+        short_strategy,
+        |_| check_short,
     );
     "exploration"
 }
